@@ -27,6 +27,9 @@ const (
 // EncryptionSession holds all necessary information for encrypting a duplex packet stream.
 type EncryptionSession struct {
 	lock sync.Mutex
+	// openLock makes selecting the cipher, opening and checking one incoming
+	// frame a single step (see Open). It is taken before lock, never after.
+	openLock sync.Mutex
 
 	// Key exchange and keys.
 	kxRouterPrivate *ecdh.PrivateKey
@@ -269,6 +272,28 @@ func (s *EncryptionSession) In(seqNum uint32, prio bool) (
 	}
 
 	return s.inCipher, nil
+}
+
+// Open authenticates and decrypts an incoming frame with the given function and
+// checks its sequence number, all in one step: it hands open the cipher that In
+// selects for the sequence number and, if open succeeds, runs Check.
+// Frames of one session are unsealed by several workers. Were In, the
+// decryption and Check separate steps, a frame authenticated under the previous
+// key could be checked after another worker rolled the key over: it would be
+// entered into the sequence window of the new key, and from then on no frame of
+// the new key would be accepted.
+func (s *EncryptionSession) Open(seqNum uint32, prio bool, open func(c cipher.AEAD) error) error {
+	s.openLock.Lock()
+	defer s.openLock.Unlock()
+
+	c, err := s.In(seqNum, prio)
+	if err != nil {
+		return err
+	}
+	if err := open(c); err != nil {
+		return err
+	}
+	return s.Check(seqNum, prio)
 }
 
 // Out returns all data to set on the outgoing frame and the cipher to encrypt it.
